@@ -16,76 +16,98 @@ class unique_label_name:
     }
 
 
-# ---- read-only view of an HRG (label tables + flat rule sequence) ----------------------------------
+# ---- an HRG with its rule table; the rules are immutable snapshots (RuleV: lhs, rhs edges / nodes / externals) --------
+# all_rules and rules are VERIFIED on this view (they were assumed contracts before); what remains assumed is the
+# abstraction itself: a rule object in the table is not mutated while a query runs.
+def in_table(hrg, r):
+    return exists(lambda l, i: l in hrg._rules and 0 <= i and i < len(hrg._rules[l]) and hrg._rules[l][i] == r, "EdgeLabel,int")
+
+
 @contract("fggs.fggs.HRG.all_rules")
 class HRG_all_rules:
-    # ASSUMED (not verified): HRG._rules is a dict of lists of mutable rules, outside pyvc's value model.
-    # The bounded checkers of C16 / C19 exercise all_rules(); here it is the identity on the view.
-    sig = {"self": "HRGView"}
-    assumed = True
+    sig = {"self": "HRGTable"}
+    properties = ["C19", "C16", "C02"]
+    returns = "seq[RuleV]"
+    ensures = {
+        # exactly the rules of the table (order and multiplicity are not specified)
+        "members": lambda self, result: forall(lambda r: (r in result) == in_table(self, r), "RuleV"),
+        "pure": lambda self: self._rules == old(self._rules),
+    }
+
+
+@contract("fggs.fggs.HRG.rules")
+class HRG_rules:
+    sig = {"self": "HRGTable", "lhs": "EdgeLabel"}
+    properties = ["C19", "C16", "C02"]
     modular = True
     returns = "seq[RuleV]"
-    ensures = {"view": lambda self, result: result == self._rule_seq}
+    ensures = {
+        "the_rules_of_lhs": lambda self, lhs, result: (
+            implies(lhs in self._rules, result == self._rules[lhs]) and implies(lhs not in self._rules, len(result) == 0)),
+        "pure": lambda self: self._rules == old(self._rules),
+    }
 
 
-def rule_lhs_registered(hrg):
-    # wf_hrg clause (established by HRG.add_rule): every rule's lhs is a nonterminal of the label table
-    return forall(lambda i: implies(0 <= i and i < len(hrg._rule_seq),
-                                    hrg._rule_seq[i].lhs.is_nonterminal
-                                    and hrg._rule_seq[i].lhs.name in hrg._edge_labels
-                                    and hrg._edge_labels[hrg._rule_seq[i].lhs.name] == hrg._rule_seq[i].lhs), "int")
+def rule_ok(hrg, r):
+    # what HRG.add_rule establishes for a rule of the table: its lhs is a registered nonterminal, its rhs labels are registered
+    return (r.lhs.is_nonterminal and r.lhs.name in hrg._edge_labels and hrg._edge_labels[r.lhs.name] == r.lhs
+            and forall(lambda j: implies(0 <= j and j < len(r.rhs.edges()),
+                                         r.rhs.edges()[j].label.name in hrg._edge_labels
+                                         and hrg._edge_labels[r.rhs.edges()[j].label.name] == r.rhs.edges()[j].label), "int"))
 
-def rhs_labels_registered(hrg):
-    return forall(lambda i, j: implies(0 <= i and i < len(hrg._rule_seq) and 0 <= j and j < len(hrg._rule_seq[i].rhs.edges()),
-                                       hrg._rule_seq[i].rhs.edges()[j].label.name in hrg._edge_labels
-                                       and hrg._edge_labels[hrg._rule_seq[i].rhs.edges()[j].label.name]
-                                       == hrg._rule_seq[i].rhs.edges()[j].label), "int,int")
+def table_ok(hrg):
+    return forall(lambda l, i: implies(l in hrg._rules and 0 <= i and i < len(hrg._rules[l]), rule_ok(hrg, hrg._rules[l][i])),
+                  "EdgeLabel,int")
 
-def has_edge_upto(hrg, x, y, i, jmax_of_i):
-    # some rule with index < i (or rule i, edge index < jmax_of_i) has lhs x and an rhs edge labelled y
-    return exists(lambda a, b: 0 <= a and 0 <= b and b < len(hrg._rule_seq[a].rhs.edges())
-                  and (a < i or (a == i and b < jmax_of_i)) and a < len(hrg._rule_seq)
-                  and hrg._rule_seq[a].lhs == x and hrg._rule_seq[a].rhs.edges()[b].label == y, "int,int")
+def enumerates_table(hrg, it):
+    # the traversed sequence consists of rules of the table, and every rule of the table occurs in it
+    return (forall(lambda a: implies(0 <= a and a < len(it), in_table(hrg, it[a])), "int")
+            and forall(lambda l, i: implies(l in hrg._rules and 0 <= i and i < len(hrg._rules[l]),
+                                            exists(lambda a: 0 <= a and a < len(it) and it[a] == hrg._rules[l][i], "int")), "EdgeLabel,int"))
+
+def has_edge_upto(it, x, y, i, jmax_of_i):
+    # some rule it[a] with a < i (or a == i and edge index < jmax_of_i) has lhs x and an rhs edge labelled y
+    return exists(lambda a, b: 0 <= a and 0 <= b and b < len(it[a].rhs.edges())
+                  and (a < i or (a == i and b < jmax_of_i)) and a < len(it)
+                  and it[a].lhs == x and it[a].rhs.edges()[b].label == y, "int,int")
+
+def has_edge(hrg, x, y):
+    # some rule of the table has lhs x and an rhs edge labelled y
+    return exists(lambda l, i, b: l in hrg._rules and 0 <= i and i < len(hrg._rules[l]) and hrg._rules[l][i].lhs == x
+                  and 0 <= b and b < len(hrg._rules[l][i].rhs.edges())
+                  and hrg._rules[l][i].rhs.edges()[b].label == y, "EdgeLabel,int,int")
 
 
 @contract("fggs.utils.nonterminal_graph")
 class nonterminal_graph:
-    sig = {"hrg": "HRGView"}
+    sig = {"hrg": "HRGTable"}
     properties = ["C19"]
-    requires = lambda hrg: label_tables_keyed_by_name(hrg) and rule_lhs_registered(hrg) and rhs_labels_registered(hrg)
+    requires = lambda hrg: label_tables_keyed_by_name(hrg) and table_ok(hrg)
     loops = {
-        0: lambda hrg, g, _i0: (
-            forall(lambda x: (x in g) == (x in vals(hrg._edge_labels) and x.is_nonterminal), "EdgeLabel")
-            and forall(lambda x, y: implies(x in g, (y in g[x]) == (y.is_nonterminal and has_edge_upto(hrg, x, y, _i0, 0))),
+        0: lambda hrg, g, _i0, _it0: (
+            hrg._edge_labels == old(hrg._edge_labels) and hrg._rules == old(hrg._rules)
+            and enumerates_table(hrg, _it0)
+            and forall(lambda a: implies(0 <= a and a < len(_it0), rule_ok(hrg, _it0[a])), "int")
+            and forall(lambda x: (x in g) == (x in vals(hrg._edge_labels) and x.is_nonterminal), "EdgeLabel")
+            and forall(lambda x, y: implies(x in g, (y in g[x]) == (y.is_nonterminal and has_edge_upto(_it0, x, y, _i0, 0))),
                        "EdgeLabel,EdgeLabel")),
-        1: lambda hrg, g, r, _i0, _i1: (
-            forall(lambda x: (x in g) == (x in vals(hrg._edge_labels) and x.is_nonterminal), "EdgeLabel")
-            and forall(lambda x, y: implies(x in g, (y in g[x]) == (y.is_nonterminal and has_edge_upto(hrg, x, y, _i0, _i1))),
+        1: lambda hrg, g, r, _i0, _it0, _i1, _it1: (
+            hrg._edge_labels == old(hrg._edge_labels) and hrg._rules == old(hrg._rules)
+            and enumerates_table(hrg, _it0)
+            and forall(lambda a: implies(0 <= a and a < len(_it0), rule_ok(hrg, _it0[a])), "int")
+            and forall(lambda x: (x in g) == (x in vals(hrg._edge_labels) and x.is_nonterminal), "EdgeLabel")
+            and forall(lambda x, y: implies(x in g, (y in g[x]) == (y.is_nonterminal and has_edge_upto(_it0, x, y, _i0, _i1))),
                        "EdgeLabel,EdgeLabel")),
     }
     ensures = {
         "every_nonterminal_is_a_vertex": lambda hrg, result: forall(
             lambda x: (x in result) == (x in vals(hrg._edge_labels) and x.is_nonterminal), "EdgeLabel"),
         "edge_iff_rhs_occurrence": lambda hrg, result: forall(
-            lambda x, y: implies(x in result, (y in result[x]) == (
-                y.is_nonterminal and has_edge_upto(hrg, x, y, len(hrg._rule_seq), 0))), "EdgeLabel,EdgeLabel"),
+            lambda x, y: implies(x in result, (y in result[x]) == (y.is_nonterminal and has_edge(hrg, x, y))), "EdgeLabel,EdgeLabel"),
         "closed": lambda hrg, result: forall(
             lambda x, y: implies(x in result and y in result[x], y in result), "EdgeLabel,EdgeLabel"),
-        "pure": lambda hrg: hrg._edge_labels == old(hrg._edge_labels) and hrg._rule_seq == old(hrg._rule_seq),
+        "pure": lambda hrg: hrg._edge_labels == old(hrg._edge_labels) and hrg._rules == old(hrg._rules),
     }
-
-
-@contract("fggs.fggs.HRG.rules")
-class HRG_rules:
-    # ASSUMED (see HRG.all_rules): the rules of one left-hand side, as a selection from the flat rule sequence
-    sig = {"self": "HRGView", "lhs": "EdgeLabel"}
-    assumed = True
-    modular = True
-    returns = "seq[RuleV]"
-    ensures = {"view": lambda self, lhs, result: (
-        forall(lambda j: implies(0 <= j and j < len(result), result[j] in self._rule_seq and result[j].lhs == lhs), "int")
-        and forall(lambda i: implies(0 <= i and i < len(self._rule_seq) and self._rule_seq[i].lhs == lhs,
-                                     self._rule_seq[i] in result), "int"))}
 
 
 # ---- scc: Tarjan's algorithm (C19; C01 / C02 schedule the solvers by it) ---------------------------------------------
